@@ -92,8 +92,18 @@ pub fn output_diff(
     Ok(Some(buffer))
 }
 
+/// Splits a text into its lines, each with its terminating `\n`.
+/// Only `\n` ends a line here, as for the tools that apply a diff: `TextDiff::from_lines` also breaks at a lone `\r`,
+/// which can only occur inside a multiline string or comment, and would then number and print lines no consumer sees.
+fn split_lines(text: &str) -> Vec<&str> {
+    text.split_inclusive('\n').collect()
+}
+
 pub fn output_diff_unified(old: &str, new: &str) -> Result<Option<Vec<u8>>> {
-    let text_diff = TextDiff::from_lines(old, new);
+    let (old_lines, new_lines) = (split_lines(old), split_lines(new));
+    let text_diff = TextDiff::configure()
+        .newline_terminated(true)
+        .diff_slices(&old_lines, &new_lines);
 
     // If there are no changes, return nothing
     if text_diff.ratio() == 1.0 {
@@ -120,7 +130,10 @@ pub struct DiffMismatch {
 }
 
 pub fn output_diff_json(old: &str, new: &str) -> Option<Vec<DiffMismatch>> {
-    let text_diff = TextDiff::from_lines(old, new);
+    let (old_lines, new_lines) = (split_lines(old), split_lines(new));
+    let text_diff = TextDiff::configure()
+        .newline_terminated(true)
+        .diff_slices(&old_lines, &new_lines);
     let ops = text_diff.ops();
 
     if ops.iter().all(|op| matches!(op, DiffOp::Equal { .. })) {
